@@ -3,6 +3,7 @@
 pub mod baseline;
 pub mod c01;
 pub mod c02;
+pub mod c05;
 pub mod c14;
 pub mod c15;
 pub mod modelrun;
@@ -40,6 +41,7 @@ pub fn main(args: &[String]) -> i32 {
         "C01" => c01::run(&tier, seed, replay),
         "C15" => c15::run(&tier, seed, replay),
         "C14" => c14::run(&tier, seed, replay),
+        "C05" => c05::run(&tier, seed, replay),
         _ => {
             eprintln!("unknown property id {}", id);
             2
